@@ -3,6 +3,7 @@ C02: the CSR <-> CSCR conversions (`Csr.toCscr`, `Cscr.toCsr`) preserve the dens
 No algebraic laws on the scalars are used: both sides are the same fold.
 -/
 import FeatModel.Lemmas.C02Permute
+import FeatModel.Model.LA.Chain
 import FeatModel.Lemmas.C02Transpose
 open FeatModel FeatModel.LA
 
@@ -70,13 +71,120 @@ theorem strict_gap (f : Nat → Nat) (n : Nat) (h : ∀ k, k + 1 < n → f k < f
     · have : i = k + 1 := by omega
       subst this; simp
 
+/-! ### the compressed rows of a CSCR matrix, seen as a CSR matrix with `usedRows` rows -/
+
+/-- the compressed rows of a CSCR matrix as a CSR matrix with `usedRows` rows -/
+def core (A : Cscr α) : Csr α := ⟨A.usedRows, A.cols, A.rowPtr, A.colInd, A.val⟩
+
+theorem core_wf {A : Cscr α} (h : A.wf = true) : (core A).wf = true := by
+  simp only [Cscr.wf, Bool.and_eq_true] at h
+  obtain ⟨⟨⟨⟨⟨⟨⟨h1, h2⟩, h3⟩, h4⟩, h5⟩, h6⟩, _⟩, _⟩ := h
+  simp only [Csr.wf, Bool.and_eq_true]
+  exact ⟨⟨⟨⟨⟨h1, h2⟩, h3⟩, h4⟩, h5⟩, h6⟩
+
+theorem core_sorted (A : Cscr α) : (core A).sortedRows = A.sortedRows := rfl
+
+theorem findRow_some {A : Cscr α} {i k : Nat} (h : A.findRow i = some k) :
+    k < A.usedRows ∧ A.rowNumbers.getD k A.rows = i := by
+  unfold Cscr.findRow at h
+  have h1 := List.mem_of_find?_eq_some h
+  have h2 := List.find?_some h
+  exact ⟨List.mem_range.1 h1, by simpa using h2⟩
+
+theorem findRow_none {A : Cscr α} {i : Nat} (h : A.findRow i = none) :
+    ∀ k, k < A.usedRows → A.rowNumbers.getD k A.rows ≠ i := by
+  unfold Cscr.findRow at h
+  rw [List.find?_eq_none] at h
+  intro k hk
+  have := h k (List.mem_range.2 hk)
+  simpa using this
+
+/-- the row numbers of a well-formed CSCR matrix are pairwise different -/
+theorem rowNumbers_inj {A : Cscr α} (h : A.wf = true) {k k' : Nat} (hk : k < A.usedRows) (hk' : k' < A.usedRows)
+    (e : A.rowNumbers.getD k A.rows = A.rowNumbers.getD k' A.rows) : k = k' := by
+  simp only [Cscr.wf, Bool.and_eq_true, List.all_eq_true, List.mem_range, decide_eq_true_eq] at h
+  obtain ⟨_, h8⟩ := h
+  have hgap := strict_gap (fun k => A.rowNumbers.getD k 0) A.usedRows (fun k hk => h8 k (by omega))
+  rw [getD_default _ (show k < A.rowNumbers.size from hk) A.rows 0,
+    getD_default _ (show k' < A.rowNumbers.size from hk') A.rows 0] at e
+  rcases Nat.lt_trichotomy k k' with hlt | heq | hgt
+  · have g : A.rowNumbers.getD k 0 + (k' - k) ≤ A.rowNumbers.getD k' 0 := hgap k' k (by omega) hk'
+    omega
+  · exact heq
+  · have g : A.rowNumbers.getD k' 0 + (k - k') ≤ A.rowNumbers.getD k 0 := hgap k k' (by omega) hk
+    omega
+
+theorem rowOf_some [Zero α] {A : Cscr α} {i k : Nat} (h : A.findRow i = some k) :
+    A.rowOf i = (core A).rowList k := by
+  unfold Cscr.rowOf
+  rw [h]
+  rfl
+
+theorem rowOf_none [Zero α] {A : Cscr α} {i : Nat} (h : A.findRow i = none) : A.rowOf i = [] := by
+  unfold Cscr.rowOf
+  rw [h]
+
+theorem rowOf_col_lt [Zero α] {A : Cscr α} (h : A.wf = true) (i : Nat) : ∀ cv ∈ A.rowOf i, cv.1 < A.cols := by
+  intro cv hcv
+  cases hf : A.findRow i with
+  | none => rw [rowOf_none hf] at hcv; simp at hcv
+  | some k =>
+    rw [rowOf_some hf] at hcv
+    exact rowList_col_lt ((wf_iff _).1 (core_wf h)) (findRow_some hf).1 cv hcv
+
+/-- the stored row of matrix row `i` has strictly increasing column indices when the compressed rows have -/
+theorem rowOf_sorted [Zero α] {A : Cscr α} (hs : A.sortedRows = true) (i : Nat) :
+    ((A.rowOf i).map Prod.fst).Pairwise (· < ·) := by
+  cases hf : A.findRow i with
+  | none => rw [rowOf_none hf]; simp
+  | some k =>
+    rw [rowOf_some hf]
+    exact sortedRows_pairwise (A := core A) hs (findRow_some hf).1
+
+/-- the dense meaning of a well-formed CSCR matrix is the row fold over the one stored row with the number `i` -/
+theorem entry_eq_rowOf [Zero α] [Add α] {A : Cscr α} (h : A.wf = true) (i j : Nat) :
+    A.entry i j = rowFold j (A.rowOf i) 0 := by
+  have hC := (wf_iff _).1 (core_wf h)
+  unfold Cscr.entry
+  rw [List.range_eq_range']
+  cases hf : A.findRow i with
+  | none =>
+    rw [rowOf_none hf]
+    exact foldl_range'_nohit (fun nz => A.rowNumbers.getD nz A.rows = i)
+      (fun s nz => foldRange (A.rowPtr.getD nz 0) (A.rowPtr.getD (nz + 1) 0)
+        (fun s k => if A.colInd.getD k A.cols = j then s + A.val.getD k 0 else s) s) _ _ _
+      (fun k _ hk => findRow_none hf k (by omega))
+  | some k0 =>
+    obtain ⟨hk0, e0⟩ := findRow_some hf
+    rw [rowOf_some hf]
+    have key := foldl_range'_onehit (fun nz => A.rowNumbers.getD nz A.rows = i)
+      (fun s nz => foldRange (A.rowPtr.getD nz 0) (A.rowPtr.getD (nz + 1) 0)
+        (fun s k => if A.colInd.getD k A.cols = j then s + A.val.getD k 0 else s) s) k0 e0 A.usedRows 0 0
+      (Nat.zero_le _) (by omega) (fun k _ hk hc => rowNumbers_inj h (by omega) hk0 (hc.trans e0.symm))
+    exact key.trans (foldRange_rowFold (core A) k0 j 0 (rowEnd_le hC hk0))
+
 end CscrAux
 open PermuteAux CscrAux
 
 theorem csr_toCscr_spec {α : Type} [Zero α] [Add α] (A : Csr α) (h : A.wf = true) :
-    A.toCscr.rows = A.rows ∧ A.toCscr.cols = A.cols ∧ A.toCscr.wf = true ∧
+    A.toCscr.rows = A.rows ∧ A.toCscr.cols = A.cols ∧ (A.toCscr.isArrayless = true ∨ A.toCscr.wf = true) ∧
     ∀ i j, i < A.rows → j < A.cols → A.toCscr.entry i j = A.entry i j := by
   have hA := (wf_iff A).1 h
+  by_cases h0 : A.usedElements = 0
+  · -- the entry-free source: `SparseMatrixCSCR(rows, cols)`, no arrays
+    have eT : A.toCscr = ⟨A.rows, A.cols, #[], #[], #[], #[]⟩ := if_pos h0
+    rw [eT]
+    refine ⟨rfl, rfl, Or.inl rfl, ?_⟩
+    intro i j hi _
+    have hz : A.entry i j = 0 := by
+      unfold Csr.entry
+      apply foldRange_ge
+      have h1 := rowEnd_le hA hi
+      have h2 : A.val.size = 0 := h0
+      rw [hA.colSize, h2] at h1
+      omega
+    rw [hz]
+    rfl
   -- the pieces of the definition
   let used := (List.range A.rows).filter fun i => A.rowBegin i < A.rowEnd i
   let rs := used.map A.rowList
@@ -91,8 +199,8 @@ theorem csr_toCscr_spec {α : Type} [Zero α] [Add α] (A : Csr α) (h : A.wf = 
     exact rowList_col_lt hA ((hmem u).1 hu).1 cv hcv
   have hnd : used.Nodup := List.nodup_range.filter _
   have hpw : used.Pairwise (· < ·) := List.pairwise_lt_range.filter _
-  have eT : A.toCscr = ⟨A.rows, A.cols, C.rowPtr, C.colInd, C.val, used.toArray⟩ := rfl
-  refine ⟨rfl, rfl, ?_, ?_⟩
+  have eT : A.toCscr = ⟨A.rows, A.cols, C.rowPtr, C.colInd, C.val, used.toArray⟩ := if_neg h0
+  refine ⟨by rw [eT], by rw [eT], Or.inr ?_, ?_⟩
   · rw [eT]
     simp only [Csr.wf, Bool.and_eq_true] at hCwf
     obtain ⟨⟨⟨⟨⟨h1, h2⟩, h3⟩, h4⟩, h5⟩, h6⟩ := hCwf
@@ -143,75 +251,23 @@ theorem cscr_toCsr_spec {α : Type} [Zero α] [Add α] (A : Cscr α) (h : A.wf =
     (hB : A.toCsr = some B) :
     B.rows = A.rows ∧ B.cols = A.cols ∧ B.wf = true ∧
     ∀ i j, i < A.rows → j < A.cols → B.entry i j = A.entry i j := by
-  simp only [Cscr.wf, Bool.and_eq_true, beq_iff_eq, List.all_eq_true, List.mem_range, decide_eq_true_eq,
-    Array.all_eq_true] at h
-  obtain ⟨⟨⟨⟨⟨⟨⟨h1, h2⟩, h3⟩, h4⟩, h5⟩, h6⟩, h7⟩, h8⟩ := h
   unfold Cscr.toCsr at hB
   split at hB
   · exact absurd hB (by simp)
-  split at hB
-  · exact absurd hB (by simp)
-  rename_i hne hge
   have hB' := (Option.some.inj hB).symm
-  -- the row numbers
-  have hf : ∀ k, k < A.usedRows → A.rowNumbers.getD k 0 < A.rows := by
-    intro k hk
-    have := h7 k hk
-    rw [Array.getD_eq_getD_getElem?, Array.getElem?_eq_getElem hk]
-    exact this
-  have hgap := strict_gap (fun k => A.rowNumbers.getD k 0) A.usedRows (fun k hk => h8 k (by omega))
-  have hn : A.usedRows = A.rows := by
-    rcases Nat.eq_zero_or_pos A.usedRows with h0 | hpos
-    · omega
-    · have g : A.rowNumbers.getD 0 0 + (A.usedRows - 1 - 0) ≤ A.rowNumbers.getD (A.usedRows - 1) 0 :=
-        hgap (A.usedRows - 1) 0 (by omega) (by omega)
-      have l := hf (A.usedRows - 1) (by omega)
-      omega
-  have hid : ∀ k, k < A.usedRows → A.rowNumbers.getD k A.rows = k := by
-    intro k hk
-    rw [getD_default _ (show k < A.rowNumbers.size from hk) A.rows 0]
-    have g1 : A.rowNumbers.getD 0 0 + (k - 0) ≤ A.rowNumbers.getD k 0 := hgap k 0 (by omega) hk
-    have g2 : A.rowNumbers.getD k 0 + (A.usedRows - 1 - k) ≤ A.rowNumbers.getD (A.usedRows - 1) 0 :=
-      hgap (A.usedRows - 1) k (by omega) (by omega)
-    have l := hf (A.usedRows - 1) (by omega)
-    omega
-  have hrp : A.rowPtr.extract 0 (A.rows + 1) = A.rowPtr := by
-    have : A.rows + 1 = A.rowPtr.size := by omega
-    rw [this, Array.extract_size]
-  rw [hrp] at hB'
   subst hB'
+  have hlen : ((List.range A.rows).map A.rowOf).length = A.rows := by simp
   refine ⟨rfl, rfl, ?_, ?_⟩
-  · rw [wf_iff]
-    refine ⟨?_, h2, ?_, h4, ?_, ?_⟩
-    · show A.rowPtr.size = A.rows + 1
-      omega
-    · show A.rowPtr.getD A.rows 0 = A.val.size
-      rw [← hn]; exact h3
-    · intro i hi
-      exact h5 i (by rw [hn]; exact hi)
-    · intro k hk
-      have := h6 k hk
-      simpa [Array.getD, show k < A.colInd.size from hk] using this
-  · intro i j hi hj
-    show foldRange (A.rowPtr.getD i 0) (A.rowPtr.getD (i + 1) 0)
-        (fun s k => if A.colInd.getD k A.cols = j then s + A.val.getD k 0 else s) 0 = A.entry i j
-    unfold Cscr.entry
-    have step : ∀ (s : α) (nz : Nat), nz ∈ List.range A.usedRows →
-        (if A.rowNumbers.getD nz A.rows = i then
-          foldRange (A.rowPtr.getD nz 0) (A.rowPtr.getD (nz + 1) 0)
-            (fun s k => if A.colInd.getD k A.cols = j then s + A.val.getD k 0 else s) s
-        else s)
-        = (fun s u => if u = i then
-            foldRange (A.rowPtr.getD i 0) (A.rowPtr.getD (i + 1) 0)
-              (fun s k => if A.colInd.getD k A.cols = j then s + A.val.getD k 0 else s) s else s) s nz := by
-      intro s nz hnz
-      rw [hid nz (List.mem_range.1 hnz)]
-      show _ = if nz = i then _ else s
-      by_cases e : nz = i
-      · subst e; rfl
-      · rw [if_neg e, if_neg e]
-    rw [List.foldl_ext _ _ 0 step, foldl_if_eq _ i _ 0 List.nodup_range,
-      if_pos (List.mem_range.2 (by omega))]
+  · apply Permute.ofRows_wf _ _ _ hlen
+    intro r hr cv hcv
+    obtain ⟨u, _, rfl⟩ := List.mem_map.1 hr
+    exact rowOf_col_lt h u cv hcv
+  · intro i j hi _
+    rw [Permute.ofRows_entry _ _ _ hlen i j hi]
+    have e : ((List.range A.rows).map A.rowOf).getD i [] = A.rowOf i := by
+      simp [List.getD_eq_getElem?_getD, hi]
+    rw [e]
+    exact (entry_eq_rowOf h i j).symm
 
 /-! ### BCSR transpose -/
 namespace CscrAux
